@@ -20,6 +20,8 @@ def scenarios(tier):
     L.append((SC.scn("first-build+ood", w["two"], ["redo-ifchange x", "redo-ood"], visible=VIS), 1 if q else 2))
     if not q:
         L.append((SC.scn("first-3", w["two"], ["redo-ifchange x", "redo-ifchange y", "redo-sources"], visible=VIS), 2))
+    # two forced builds of one target that was never built: the one that waits must not act on what it read before waiting
+    L.append((SC.scn("first-redo-x+redo-x", w["one"], ["redo --no-log x", "redo --no-log x"], visible=VIS, forced_twice="x"), 1 if q else 2))
     # (b) the same on an existing database
     pre = [["ifchange", ["x"]], ["edit", "s", "1"]]
     L.append((SC.scn("db-2-builds", w["two"], ["redo-ifchange x", "redo-ifchange y"], setup=pre, visible=VIS), 1 if q else 2))
@@ -96,6 +98,18 @@ def oracle(scn, res):
                 if res["files"].get(t) != want:
                     out.append(({"kind": "wrong-content", "scenario": scn["name"], "target": t},
                                 {"want": want, "got": res["files"].get(t)}))
+        # what a script built is recorded as generated (not taken for a source or a user's file)
+        gen = {r[0]: r[1] for r in (res.get("dbrows") or [])}
+        for t in names:
+            if t + ".do" in scn["world"].rules and not gen.get(t):
+                out.append(({"kind": "built-target-not-recorded-as-generated", "scenario": scn["name"], "target": t}, {"row": gen.get(t)}))
+        if scn.get("forced_twice"):
+            n = sum(1 for l in res["trace"] if l.startswith("B %s " % scn["forced_twice"]))
+            if n != 2:
+                out.append(({"kind": "forced-build-skipped", "scenario": scn["name"], "count": n}, {"trace": res["trace"]}))
+            for nm, err in res["stderr"].items():
+                if "you modified it" in err or "not redoing" in err:
+                    out.append(({"kind": "other-invocations-output-taken-for-user-file", "scenario": scn["name"]}, {"stderr": err[-400:]}))
         ids = [r[0] for r in (res.get("runids") or [])]
         if len(ids) != len(set(ids)):
             out.append(({"kind": "duplicate-run-ids", "scenario": scn["name"]}, {"ids": ids}))
